@@ -105,7 +105,7 @@ macro_rules! split_instance {
     };
 }
 
-// @verif id=VS.split.a props=C18,C02,C19,C10 tier=quick timeout=900
+// @verif id=VS.split.a props=C18,C02,C19 tier=quick timeout=900
 // @functions VirtualSocket::split_tx_queue_into_segments, Segments::enqueue, Segments::pop_expired_mtu_probe, SegmentSizes::next_segment_size
 // @bounds MSS 4 (no probing range); 6 bytes buffered (wrapped in the ring), nothing in flight; ANY peer window (u32); Nagle on/off symbolic
 // @asserts segments are min(MSS, window left, bytes left) each, in order; Nagle never holds data when nothing is in flight for the FIRST segment, but holds the trailing partial one (earlier data unacknowledged); Nagle off: everything up to the window; unsegmented remainder recorded
@@ -113,7 +113,7 @@ macro_rules! split_instance {
 // @tier C
 split_instance!(vs_split_fill6_idle, 6, 0, []);
 
-// @verif id=VS.split.b props=C18,C19,C10 tier=quick timeout=900 
+// @verif id=VS.split.b props=C18,C19 tier=quick timeout=900 
 // @functions VirtualSocket::split_tx_queue_into_segments
 // @bounds MSS 4; 7 bytes buffered of which 4 already segmented, sent and unacknowledged (one full segment in flight); ANY peer window; Nagle symbolic
 // @asserts with Nagle the trailing 3-byte partial segment is NOT created (unless the window is what limits a segment); without Nagle it is
@@ -121,7 +121,7 @@ split_instance!(vs_split_fill6_idle, 6, 0, []);
 // @tier C
 split_instance!(vs_split_fill7_one_in_flight, 7, 1, [4]);
 
-// @verif id=VS.split.c props=C18,C02,C10 tier=quick timeout=900
+// @verif id=VS.split.c props=C18,C02 tier=quick timeout=900
 // @functions VirtualSocket::split_tx_queue_into_segments
 // @bounds nothing buffered
 // @asserts nothing segmented; the dispatcher's waker is registered with the write half
@@ -129,7 +129,7 @@ split_instance!(vs_split_fill7_one_in_flight, 7, 1, [4]);
 // @tier C
 split_instance!(vs_split_empty, 0, 0, []);
 
-// @verif id=VS.split.d props=C18,C19,C10 tier=thorough timeout=900
+// @verif id=VS.split.d props=C18,C19 tier=thorough timeout=900
 // @functions VirtualSocket::split_tx_queue_into_segments
 // @bounds MSS 4; 8 bytes buffered, a 2-byte partial segment in flight
 // @asserts as VS.split.b
@@ -170,7 +170,7 @@ fn probe_step(outstanding: bool) {
     finish(t);
 }
 
-// @verif id=VS.split.probe props=C14,C10 tier=quick timeout=900
+// @verif id=VS.split.probe props=C14 tier=quick timeout=900
 // @functions VirtualSocket::split_tx_queue_into_segments, SegmentSizes::next_segment_size
 // @bounds search interval [2, 6] with the cool-down expired; 8 bytes buffered; peer window ANY >= 8; Nagle off; (a) no probe outstanding, (b) an unexpired probe outstanding (contract stub outcome NotExpired)
 // @asserts (a) exactly one segment is created: the 5-byte probe, flagged, and segmentation stops behind it; (b) nothing at all is segmented behind an outstanding probe
